@@ -538,6 +538,23 @@ struct PrtStream : Family {
 		if (dumpArt(art2) != before) ctx.fail("C10.roundtrip-equal", "structure read back after writing differs from the original");
 		std::vector<uint8_t> w2 = writeVia(plan, ctx, wb, "w2", "C10.byte-stable", [&](Stream::Writer& w) { art2.Write(w); });
 		if (w2 != w1) ctx.fail("C10.byte-stable", "second write differs from the first: " + firstDiff(w2, w1));
+		// fault: the destination fails at a seeded write call (device error, out of memory, size rejected). The write may fail, but
+		// "writing never alters the in-memory object": the object is as before and writes the same bytes afterwards
+		{
+			SimWriter count;
+			{ Armed a; try { art.Write(count); } catch (...) {} }
+			if (count.writeCalls > 0) {
+				SimWriter fw;
+				fw.failAtCall = 1 + mix64(plan.seed, 0xfa11) % count.writeCalls;
+				fw.failKind = static_cast<int>(mix64(plan.seed, 0xfa12) % 3);
+				Out fo = callLib(plan, [&] { art.Write(fw); }, &what);
+				if (fo == ErrOther) ctx.fail("C10.write-const", "a write whose destination failed ended with something that is not a std::exception");
+				ctx.count("fault.destination_failed_during_write");
+				if (dumpArt(art) != before) ctx.fail("C10.write-const", "ArtFile::Write altered the in-memory object when its destination failed at write call " + std::to_string(fw.failAtCall) + " of " + std::to_string(count.writeCalls) + " (failure kind " + std::to_string(fw.failKind) + ")");
+				std::vector<uint8_t> w3 = writeVia(plan, ctx, "dyn", "w3", "C10.byte-stable", [&](Stream::Writer& w) { art.Write(w); });
+				if (w3 != w1) ctx.fail("C10.byte-stable", "the write after a write whose destination failed differs from the first: " + firstDiff(w3, w1));
+			}
+		}
 		// writer refusal lane
 		for (size_t oi = 0; oi < plan.ops.size(); ++oi) {
 			const Line& op = plan.ops[oi];
@@ -576,6 +593,11 @@ struct PrtStream : Family {
 			o = callLib(plan, [&] { Stream::DynamicMemoryWriter w; bad.Write(w); }, &what);
 			if (o == ErrOther) ctx.fail("C10.refuse-invalid", "non-std exception");
 			if (o == OkOut) ctx.fail("C10.refuse-invalid", "ArtFile::Write accepted a structure violating the cross-field rule '" + kind + "'");
+			// refused every time, not only the first: the same object again, and a copy of it
+			o = callLib(plan, [&] { Stream::DynamicMemoryWriter w; bad.Write(w); }, &what);
+			if (o == OkOut) ctx.fail("C10.refuse-invalid", "ArtFile::Write refused a structure violating the cross-field rule '" + kind + "' and accepted the same object on the second attempt");
+			o = callLib(plan, [&] { ArtFile again = bad; SimWriter w; again.Write(w); }, &what);
+			if (o == OkOut) ctx.fail("C10.refuse-invalid", "ArtFile::Write refused a structure violating the cross-field rule '" + kind + "' and accepted a copy of it");
 			ctx.count("probe.writer_refused_" + kind);
 			ctx.event("refuse " + kind);
 		}
